@@ -428,6 +428,12 @@ def r_main_flag(e, R):
         isinstance(x, ast.Call) and norm(x.func) in ("runpy.run_module", "runpy.run_path") for x in func_nodes(f_))}
     if not fixq:
         raise AnalysisError("spawn: the functions re-running the parent's __main__ (runpy.run_module / run_path) not found")
+    # a runpy call written in a lambda / nested function runs on behalf of the module-level function that creates it
+    for q in list(fixq):
+        f_ = e.prog.funcs[q]
+        while f_.parent is not None and f_.parent.kind != "module":
+            f_ = f_.parent
+        fixq.add(f_.qualname)
     fix = [n for n in pg.nodes for c in calls_in(n) if e.callees_of(c) & fixq]
     ok = bool(fix) and all(any(t.kind == "test" and isinstance(t.ast, ast.Compare) and isinstance(t.ast.ops[0], ast.In) and isinstance(t.ast.left, ast.Constant)
                                and str(t.ast.left.value).startswith("init_main_from") and pg.on_branch(n, t, "T") for t in pg.nodes) for n in fix)
